@@ -303,7 +303,7 @@ func c18(c *core.Check) {
 	}
 
 	// ---- R2 reference cycles (same decisions as C01.R3 for the SVG instances)
-	r2 := c.Rule("R2", "<use> resolution (by id and by URL) and href inheritance between definitions cannot follow a cycle of references forever", 2)
+	r2 := c.Rule("R2", "references cannot be followed forever: <use> resolution (by id and by URL) and href inheritance between definitions are cycle-guarded at parse time, and while drawing, the content of a marker, clip path or mask is drawn only after the definition was recorded as being drawn (a reference to a definition in progress is skipped)", 6)
 	if ru := p.Lookup("svg.(*svgContext).resolveUse"); ru == nil {
 		r2.Anchor("svg.(*svgContext).resolveUse")
 	} else {
@@ -323,6 +323,8 @@ func c18(c *core.Check) {
 		ok, why := core.DeleteBeforeRecursion(p, ie, "href")
 		r2.Cond(ok, "svg.(*svgContext).inheritElement | inheritElement(parent)", p.Pos(ie.Pos()), why, why)
 	}
+	c18DrawCycles(c, r2)
+	c18Attributes(c)
 	c18Geometry(c)
 	c18ArcCenter(c)
 	c18Shapes(c)
@@ -514,5 +516,167 @@ func c18Groups(c *core.Check) {
 		if !found {
 			r.Anchor("call of addArcFromA in addSeg")
 		}
+	}
+}
+
+// c18DrawCycles: drawing a referenced definition cannot recurse forever.
+func c18DrawCycles(c *core.Check, r *core.Rule) {
+	p := c.Prog
+	dn := p.Method("svg", "SVGImage", "drawNode")
+	if dn == nil {
+		r.Anchor("svg.(*SVGImage).drawNode")
+		return
+	}
+	sites, _ := p.CallSitesOf(dn)
+	// a site is guarded when, in its function, a call of (*SVGImage).enter whose result is false keeps control away
+	guardedIn := func(fn *ssa.Function, at *ssa.BasicBlock) bool {
+		ok := false
+		core.Instrs(fn, func(in ssa.Instruction) {
+			call, isCall := in.(*ssa.Call)
+			if !isCall || call.Call.StaticCallee() == nil || call.Call.StaticCallee().Name() != "enter" {
+				return
+			}
+			reach := core.ForwardReach(fn.Blocks[0], map[ssa.Value]bool{call: false}, nil)
+			if !reach[at] {
+				ok = true
+			}
+		})
+		return ok
+	}
+	n := 0
+	for _, cs := range sites {
+		caller := cs.Parent()
+		if core.Rel(caller.Pkg.Pkg.Path()) != "svg" {
+			continue
+		}
+		arg := cs.Common().Args[2]
+		key := core.FuncName(caller) + " | drawNode(" + exprName(arg) + ")"
+		// structural descent: a child of the node being drawn (range over node.children)
+		isChild := core.DerivesFrom(arg, func(v ssa.Value) bool {
+			ia, ok := v.(*ssa.IndexAddr)
+			return ok && core.IsFieldNamed(ia.X, "children")
+		})
+		root := caller
+		for root.Parent() != nil {
+			root = root.Parent()
+		}
+		switch {
+		case root.Name() == "Draw":
+			continue // the entry point
+		case root.Name() == "drawNode" && isChild:
+			n++
+			r.OK(key+" | children of the node", p.Pos(cs.Pos()), "structural descent into the finite tree")
+			continue
+		case root.Name() == "draw" && core.DerivesFrom(arg, func(v ssa.Value) bool { return core.IsFieldNamed(v, "target") }):
+			n++
+			r.OK(key+" | <use> target", p.Pos(cs.Pos()), "the target was expanded into the tree at parse time under the in-use set (resolveUse, above)")
+			continue
+		}
+		n++
+		ok := guardedIn(caller, cs.Block())
+		how := "reached only after enter(…) returned true in " + caller.Name()
+		if !ok && caller.Parent() != nil {
+			// a closure (OnNewStack): the guard stands where the closure is created
+			par := caller.Parent()
+			core.Instrs(par, func(in ssa.Instruction) {
+				if mc, isMC := in.(*ssa.MakeClosure); isMC && mc.Fn == ssa.Value(caller) && guardedIn(par, mc.Block()) {
+					ok, how = true, "the closure is created only after enter(…) returned true in "+par.Name()
+				}
+			})
+		}
+		if !ok {
+			// guarded at every call site of the enclosing function
+			fsites, dyn := p.CallSitesOf(root)
+			if !dyn && len(fsites) > 0 {
+				all := true
+				for _, fs := range fsites {
+					if !guardedIn(fs.Parent(), fs.Block()) {
+						all = false
+					}
+				}
+				if all {
+					ok, how = true, fmt.Sprintf("every call of %s (%d) is reached only after enter(…) returned true", root.Name(), len(fsites))
+				}
+			}
+		}
+		r.Cond(ok, key, p.Pos(cs.Pos()), how, "the content of a referenced definition (marker, clip path, mask) is drawn without recording that it is being drawn: a definition that references itself is drawn until the stack is exhausted")
+	}
+	if n < 3 {
+		r.Anchor("call sites of drawNode on referenced definitions")
+	}
+}
+
+// c18Attributes: a shape's field is parsed from the attribute of the same name.
+func c18Attributes(c *core.Check) {
+	p := c.Prog
+	r := c.Rule("R9", "shape attributes: in the constructors of the SVG shapes, the field F of the shape is parsed from the attribute named F whenever that attribute is present (defaults from a sibling attribute — ry from rx, rx from r — only replace a missing one); decided by replaying the emptiness tests with every attribute present", 8)
+	n := 0
+	for _, fn := range p.FuncsOfPkg("svg") {
+		if fn.Parent() != nil || !strings.HasPrefix(fn.Name(), "new") {
+			continue
+		}
+		fn := fn
+		ev := &core.CondEval{Leaf: func(v ssa.Value) (bool, bool) {
+			b, ok := v.(*ssa.BinOp)
+			if !ok || (b.Op != token.EQL && b.Op != token.NEQ) {
+				return false, false
+			}
+			if s, isS := core.ConstStr(b.Y); isS && s == "" {
+				return b.Op == token.NEQ, true // every attribute is present
+			}
+			return false, false
+		}}
+		core.Instrs(fn, func(in ssa.Instruction) {
+			st, ok := in.(*ssa.Store)
+			if !ok {
+				return
+			}
+			fa, ok := st.Addr.(*ssa.FieldAddr)
+			if !ok {
+				return
+			}
+			if _, isAlloc := fa.X.(*ssa.Alloc); !isAlloc {
+				return
+			}
+			ex, ok := st.Val.(*ssa.Extract)
+			if !ok || ex.Index != 0 {
+				return
+			}
+			call, ok := ex.Tuple.(*ssa.Call)
+			if !ok || call.Call.StaticCallee() == nil || call.Call.StaticCallee().Name() != "parseValue" || len(call.Call.Args) != 1 {
+				return
+			}
+			field := core.FieldName(fa)
+			arg := call.Call.Args[0]
+			for i := 0; i < 6; i++ {
+				phi, isPhi := arg.(*ssa.Phi)
+				if !isPhi {
+					break
+				}
+				sel, ok := ev.Select(phi)
+				if !ok {
+					break
+				}
+				arg = sel
+			}
+			key := ""
+			switch x := arg.(type) {
+			case *ssa.Lookup:
+				key, _ = core.ConstStr(x.Index)
+			case *ssa.Extract:
+				if lk, ok := x.Tuple.(*ssa.Lookup); ok {
+					key, _ = core.ConstStr(lk.Index)
+				}
+			}
+			if key == "" {
+				return // not read from an attribute map directly (decided elsewhere or not at all)
+			}
+			n++
+			norm := func(s string) string { return strings.ToLower(strings.ReplaceAll(s, "-", "")) }
+			r.Cond(norm(key) == norm(field), core.FuncName(fn)+" | "+field, p.Pos(st.Pos()), "parsed from the attribute "+key, "the field "+field+" is parsed from the attribute `"+key+"` even when its own attribute is present")
+		})
+	}
+	if n == 0 {
+		r.Anchor("svg shape constructors: fields parsed with parseValue from node.attrs")
 	}
 }
